@@ -96,8 +96,8 @@ theorem roundtrip_status_fresh (c : StatusCfg) (hnw : c.noWrite = false) (body p
   rw [mergeKvs_fresh r hr [] (by simp)] at hm
   exact statusFetch_of_resolve c _ k _ hm (by simp)
 
-/-- SmartProgressStorage (annotations first, status read-and-purge only), and any Multi storage
-    headed by an annotations storage and followed by a no-write status storage. -/
+/-- SmartProgressStorage (annotations first, status read-and-purge only). General Multi storages:
+    `roundtrip_multi` below. -/
 theorem roundtrip_smart (env : Env) (a : AnnCfg) (field touchField : Path)
     (body patch0 patch' : J) (k : Str) (r : Rec)
     (hc : env.dec (env.enc (obj (stored a.verbose r))) = some (obj (stored a.verbose r)))
@@ -561,6 +561,65 @@ theorem isolation_other_handler_purge (env : Env) (c : AnnCfg) (body patch0 patc
   intro n' hn' path hp
   obtain ⟨n, hn, rfl⟩ := List.mem_map.1 hp
   exact diverge_annPath (hdisj n hn n' hn')
+
+/-- `touch` of a status storage writes its touch field only -/
+theorem isolation_touch_status (sc : StatusCfg) (body patch0 patch' value : J)
+    (hv : wf value = true) (hw : wf patch0 = true) (h : statusTouch sc body patch0 value = .ok patch') (q : Path)
+    (hq : diverge q sc.touchField = true) :
+    resolve? (mergePatch body patch') q = resolve? (mergePatch body patch0) q := by
+  unfold statusTouch at h
+  split at h
+  · cases h; rfl
+  · split at h
+    · exact (touches_ensure hv (liftD_ok h)).merged hw body q (by intro path hp; simp at hp; subst hp; exact hq)
+    · cases h; rfl
+
+/-- **storing the last-handled state** (any diff-base storage tree) changes nothing but the
+    diff-base's own annotation names, its marker and its status fields -/
+theorem isolation_dstore (env : Env) (t : DTree) (body patch0 patch' essence : J) (hw : wf patch0 = true)
+    (h : DTree.store env body essence t patch0 = .ok patch') (q : Path)
+    (hq : ∀ path ∈ t.flatten.flatMap (DLeaf.writes env body), diverge q path = true) :
+    resolve? (mergePatch body patch') q = resolve? (mergePatch body patch0) q := by
+  rw [(dtree_ops_flat env body essence patch0 t).1] at h
+  exact (dstore_touches _ h).merged hw body q hq
+
+/-- **a touch changes no handler's record**: what `k'` reads is unchanged, provided none of its
+    names is a name of the touch key or the marker (`reserved_touch_witness`, F6g, is the other case) -/
+theorem touch_leaves_records (env : Env) (c : AnnCfg) (body patch0 patch' value : J) (k' : Str)
+    (hv : wf value = true) (hw : wf patch0 = true) (hs : MarkStable patch0)
+    (h : annTouch env c body patch0 value = .ok patch')
+    (hdisj : ∀ n ∈ annNames env c.pfx c.v1 body c.touchKey, ∀ n' ∈ annNames env c.pfx c.v1 body k', n' ≠ n)
+    (hmark : ∀ n' ∈ annNames env c.pfx c.v1 body k', n' ≠ markerName c.pfx) :
+    annFetch env c (mergePatch body patch') k' = annFetch env c (mergePatch body patch0) k' := by
+  have t := touchNames_touches (pfx := c.pfx) (body := body) (annNames env c.pfx c.v1 body c.touchKey) hv h
+  have hs' : MarkStable patch' := hs.of_touches_ann (names := annNames env c.pfx c.v1 body c.touchKey ++ [markerName c.pfx])
+    (by simpa using t)
+  refine fetch_unchanged_of_touches hw hs t hs' ?_
+  intro n' hn' path hp
+  rcases List.mem_append.1 hp with hp | hp
+  · obtain ⟨n, hn, rfl⟩ := List.mem_map.1 hp
+    exact diverge_annPath (hdisj n hn n' hn')
+  · simp at hp; subst hp
+    exact diverge_annPath (hmark n' hn')
+
+/-- **storing the last-handled state changes no handler's record** (annotations diff-base next to an
+    annotations progress storage, e.g. both under the default prefix): provided none of the
+    handler's names is a name of the diff-base key or the diff-base's marker
+    (`reserved_diffbase_witness`, F6g, is the other case) -/
+theorem dstore_leaves_records (env : Env) (c : AnnCfg) (d : AnnDiffCfg) (body patch0 patch' essence : J) (k' : Str)
+    (hw : wf patch0 = true) (hs : MarkStable patch0)
+    (h : DLeaf.store env body patch0 essence (.ann d) = .ok patch')
+    (hdisj : ∀ n ∈ annNames env d.pfx d.v1 body d.key, ∀ n' ∈ annNames env c.pfx c.v1 body k', n' ≠ n)
+    (hmark : ∀ n' ∈ annNames env c.pfx c.v1 body k', n' ≠ markerName d.pfx) :
+    annFetch env c (mergePatch body patch') k' = annFetch env c (mergePatch body patch0) k' := by
+  have t := dleaf_store_touches h
+  obtain ⟨_, hs', _⟩ := dannStore_facts hw hs h
+  refine fetch_unchanged_of_touches hw hs t hs' ?_
+  intro n' hn' path hp
+  simp only [DLeaf.writes, List.mem_append, List.mem_map, List.mem_singleton] at hp
+  rcases hp with ⟨n, hn, rfl⟩ | rfl
+  · exact diverge_annPath (hdisj n hn n' hn')
+  · exact diverge_annPath (hmark n' hn')
 
 /-- **User data and other operators' records**: an annotation whose name is not `<prefix>/…` is
     never changed by a store, a purge or a touch of this storage, whatever the handler id. -/
